@@ -284,3 +284,22 @@ Definition adm (t : ty) (ty : N) : bool :=
   | TMap _ _ => ty =? tMAP
   | TStruct _ => ty =? tSB
   end.
+
+(* ---------- equality of values as Go sees it ---------- *)
+(* identical, except that float members compare with == (so -0 = +0; a NaN equals nothing, itself included, and is
+   therefore related only by the reflexive rule, i.e. bit-identical) *)
+Inductive veq (e : env) : ty -> val -> val -> Prop :=
+| VQ_refl t v : veq e t v v
+| VQ_f32 a b : f32_eq b a = true -> veq e TF32 (VFlt a) (VFlt b)
+| VQ_f64 a b : f64_eq b a = true -> veq e TF64 (VFlt a) (VFlt b)
+| VQ_vec x xs ys : Forall2 (veq e x) xs ys -> veq e (TVec x) (VList xs) (VList ys)
+| VQ_arr n x xs ys : Forall2 (veq e x) xs ys -> veq e (TArr n x) (VList xs) (VList ys)
+| VQ_map kt vt xs ys : Forall2 (fun p q => veq e kt (fst p) (fst q) /\ veq e vt (snd p) (snd q)) xs ys ->
+    veq e (TMap kt vt) (VMap xs) (VMap ys)
+| VQ_struct sid xs ys : Forall2 (fun p y => veq e (fty (fst p)) (snd p) y) (combine (fields_of e sid) xs) ys ->
+    veq e (TStruct sid) (VStruct xs) (VStruct ys).
+(* declared defaults are values of the member's type *)
+Definition defaults_typed (e : env) : Prop :=
+  forall sid fd dv, In fd (fields_of e sid) -> fdef fd = Some dv -> sc_typed (fty fd) dv.
+Definition defaults_typed_b (e : env) : bool :=
+  forallb (forallb (fun fd => match fdef fd with Some dv => sc_typed_b (fty fd) dv | None => true end)) e.
